@@ -200,7 +200,9 @@ def run_group(g, seed, opts=None):
                 key = lambda x: json.dumps(x, sort_keys=True)
                 if {key(x) for x in st1['strays']} <= {key(x) for x in al['post']['strays']}:
                     st1c = dict(st1, strays=al['post']['strays'])
-            d = diff_states(st1c, al['post'], tex_superset=(g['lab']['cmd'] == 'put')) + out_matches(g['lab']['cmd'], obs, al['lab'])
+            d = diff_states(st1c, al['post'], tex_superset=(g['lab']['cmd'] == 'put'))
+            if not opts.get('state_only'):
+                d = d + out_matches(g['lab']['cmd'], obs, al['lab'])
             if best is None or len(d) < len(best):
                 best = d
             if not d:
